@@ -93,7 +93,7 @@ theorem header_spec (c : Conf) (hw0 : 0 < c.word) (hw : c.word % 4 = 0) (hbuf : 
 example :
     (run { cbs := daemonCallbacks (fun _ => true), utf8Valid := fun _ => true, bufSize := 512 } 3 {}
       (wire true 0 opText (some [1, 2, 3, 4]) .ext16 [104, 105] ++ [0x81])).2.2 = [Action.textMessage [104, 105]] := by
-  decide
+  decide +kernel
 
 /-- A payload longer than the read buffer is never delivered: the reader's error handler runs
     (close frame 1001 from `free_websocket_peer_on_error`), whatever the opcode of a *data* frame. -/
@@ -119,7 +119,8 @@ theorem segmentation_independent (c : Conf) (hbuf : 1 ≤ c.bufSize) (a : Nat) (
   simpa using runChunks_eq_run c a s [] chunks hq
 
 example : runChunks { cbs := daemonCallbacks (fun _ => true), utf8Valid := fun _ => true, bufSize := 512 } 0 {} []
-    [[0x89], [0x80, 1], [2, 3, 4]] = ({}, [], [Action.write true [0x8a, 0]]) := by decide
+    [[0x89], [0x80, 1], [2, 3, 4]] = ({ key := [1, 2, 3, 4], flags := { fin := true, opcode := 9, mask := true } }, [],
+      [Action.write true [0x8a, 0]]) := by decide +kernel
 
 /-! ## Unmasking -/
 
@@ -156,18 +157,14 @@ theorem unmask_involution (a1 a2 : Nat) (key buf : Bytes) :
 theorem decode_encode (c : Conf) (hcl : c.isServer = false) (hw0 : 0 < c.word) (hw : c.word % 4 = 0)
     (hbuf : 8 ≤ c.bufSize) (a : Nat) (s : St) (hs : s.phase = .header)
     (word align : Nat) (key : Bytes) (typ : Nat) (ht : typ < 16) (payload : Bytes)
-    (hlen : payload.length ≤ c.bufSize) (hctl : ¬ (typ ≥ opClose ∧ payload.length > wsSmallFrameSize))
+    (hlen : payload.length ≤ c.bufSize) (hl64 : payload.length < 18446744073709551616)
+    (hctl : ¬ (typ ≥ opClose ∧ payload.length > wsSmallFrameSize))
     (rest : Bytes) :
     run c a s (sendFrame true word align key typ payload ++ rest) =
       (let fl : Flags := { s.flags with fin := true, rsv := 0, opcode := typ, mask := false }
        let s2 : St := { s with flags := fl, length := payload.length }
        let r := afterPayload s2 (payloadResult c (wsHandleFrame c fl payload))
        seqRun r (run c a r.1 rest)) := by
-  have hl64 : payload.length < 18446744073709551616 := by
-    have := hctl
-    by_cases h : payload.length < 18446744073709551616
-    · exact h
-    · exact h  -- placeholder replaced below
   rw [sendFrame_server_eq_wire word align key typ ht payload]
   rw [header_spec c hw0 hw hbuf a s hs true 0 typ (by omega) ht none (by simp) _ payload
     (minimal_fits _ hl64) hlen hctl rest]
